@@ -73,6 +73,12 @@ def gen_cases(tier, seed):
                     cfgv[cl.TOL_PAD] = 0
                     cfgv[cl.IGN_ZERO] = 0
                 yield cl.H(cfgv).call(inv.callid, inv.args, inv.blobs, [(10, rep)]).case(5000, inv.name)
+    yield from gen_wide(tier, seed)
+
+
+def gen_wide(tier, seed):
+    from harness import widegen
+    yield from widegen.gen(seed, 15000 if tier == 'quick' else 400000)
 
 
 def worker_init():
@@ -85,6 +91,15 @@ def impl(c):
 
 def oracle(c, r):
     # value-returning helpers render as [0, 2, ...]
+    if c.tag.startswith('wide /'):
+        cfgv, ops = cl.case_ops(c)
+        n = len([o for o in ops if o[0] == 'call'])
+        for d in cl.parse_calls(r, n)[0]:
+            # after the request went out, whatever comes back must end in a documented outcome (an argument the builder refuses
+            # with another exception class, before anything is sent, is C07's subject, not this property's)
+            if d['kind'] == 'raised' and d['err'] not in DOCUMENTED and any(e[0] == 'S' for e in d['events']):
+                return ('internal-error/%s' % c.tag.split(' / ')[1], 'an internal error (code %d) escaped in history %r' % (d['err'], ops))
+        return None
     if r[0] == 2:
         err = r[1]
         if err not in DOCUMENTED:
